@@ -12,6 +12,7 @@ CASES = [
     ('optCount', ['Bitfield'], dict(Fuel=1, Peers='{a, b}', NPieces=1, NBlocks='N1', MaxUnchoked=1, BFMenu='{{1}}'), ['SlotBound']),
     ('replyUnchoke', ['Bitfield'], dict(Fuel=2, Peers='{a}', NPieces=1, NBlocks='N1', TickFuel=1, MaxUnchoked=1, BFMenu='{{1}}', Rates='{0}'), ['ViewAgreement']),
     ('cacheAfterChoke', ['Bitfield', 'Request'], dict(Fuel=4, Peers='{a}', NPieces=2, NBlocks='N1x2', Own0='{1}', TickFuel=1, BFMenu='{{2}}', Rates='{0}'), ['C09Step', 'NoCacheWhileChoked']),
+    ('dupAccept', ['Unchoke', 'Bitfield', 'Piece'], dict(Fuel=3, Peers='{a}', NPieces=1, NBlocks='N1', ConnFuel=2, BFMenu='{{1}}'), ['ReservedBacked', 'NoPanic']),
     ('preHandshake', ['Bitfield', 'Handshake'], dict(Fuel=2, Peers='{a}', HS0='FALSE', BFMenu='{{1, 2}}'), ['C08Step']),
 ]
 ok = True
